@@ -354,14 +354,37 @@ def check(ctx):
 
     # ---- R5: version switch -----------------------------------------------------------------------
     sites = []
+    PS = m.cls('cflib/crazyflie/platformservice.py', 'PlatformService')
+
+    def v2_threshold(expr):
+        """smallest protocol version for which the generation switch `expr` is true: `version >= k` -> k, `version > k` -> k + 1; the
+        version may be read through get_protocol_version() or through a one-line PlatformService predicate"""
+        e = expr
+        if isinstance(e, ast.Call) and isinstance(e.func, ast.Attribute) and norm(e.func.value).endswith('.platform') and not e.args and PS.has(e.func.attr) \
+                and e.func.attr != 'get_protocol_version':
+            body = effective(PS.method(e.func.attr).node.body)
+            if len(body) == 1 and isinstance(body[0], ast.Return) and body[0].value is not None:
+                e = body[0].value
+        if isinstance(e, ast.Compare) and len(e.ops) == 1:
+            def is_version(x):
+                return norm(x).endswith('get_protocol_version()') or norm(x) in ('self._protocolVersion', 'self._protocol_version')
+            k = fold(e.comparators[0], Scope(m.mod('cflib/crazyflie/platformservice.py'), PS)) if is_version(e.left) else \
+                fold(e.left, Scope(m.mod('cflib/crazyflie/platformservice.py'), PS)) if is_version(e.comparators[0]) else None
+            if isinstance(k, int):
+                op = type(e.ops[0])
+                if not is_version(e.left):
+                    op = {ast.Lt: ast.Gt, ast.LtE: ast.GtE, ast.Gt: ast.Lt, ast.GtE: ast.LtE}.get(op, op)
+                return {ast.GtE: k, ast.Gt: k + 1}.get(op)
+        return None
     for path in (TOC, LOG, PAR):
         for f in m.mod(path).all_funcs():
-            for s in walk_own(f.node):
-                if isinstance(s, ast.Assign) and norm(s.targets[0]) == 'self._useV2' and 'get_protocol_version' in norm(s.value):
-                    sites.append((f, norm(s.value)))
+            for s_ in walk_own(f.node):
+                if isinstance(s_, ast.Assign) and norm(s_.targets[0]) == 'self._useV2' and 'platform' in norm(s_.value):
+                    sites.append((f, s_.value))
     ctx.need(len(sites) >= 4, 'expected >= 4 protocol-generation switches, found %d' % len(sites))
-    for f, t in sites:
-        ctx.inst('R5', f, 'v2-switch', t == 'self.cf.platform.get_protocol_version() >= 4', 'generation switch is `%s`, expected version >= 4' % t)
+    for f, v in sites:
+        th = v2_threshold(v)
+        ctx.inst('R5', f, 'v2-switch', th == 4, 'generation switch `%s` is true from protocol version %s on, expected 4' % (norm(v), th))
 
     # ---- R6: type tables ----------------------------------------------------------------------------
     pe = m.cls(PAR, 'ParamTocElement')
